@@ -217,6 +217,45 @@ fn pristine_table(calls: &[Call]) -> Result<(Vec<String>, Vec<Option<String>>), 
 /// ONE set of interpreters (counters wrap, epochs overflow, caches fill). Returns the first
 /// (iteration, call index, got) that disagrees with the pristine result.
 pub fn soak(calls: &[Call], expected: &[String], repeats: usize) -> Option<(usize, usize, String)> {
+    soak_then_probe(calls, expected, repeats, &[], &[]).map(|(r, i, g, _)| (r, i, g))
+}
+
+/// The soak, followed on the same thread and interpreters by `probe` calls once each (state built up
+/// by a long monotone history must not change what other calls give). The last field tells whether the
+/// mismatch was found in the probe part.
+pub fn soak_then_probe(
+    calls: &[Call],
+    expected: &[String],
+    repeats: usize,
+    probe: &[Call],
+    probe_expected: &[String],
+) -> Option<(usize, usize, String, bool)> {
+    std::thread::scope(|sc| {
+        sc.spawn(|| {
+            let ls = crate::pools::Langs::new();
+            for (i, c) in calls.iter().enumerate() {
+                for r in 0..repeats {
+                    let got = exec_call(&ls, c, false);
+                    if got != expected[i] {
+                        return Some((r, i, got, false));
+                    }
+                }
+            }
+            for (i, c) in probe.iter().enumerate() {
+                let got = exec_call(&ls, c, false);
+                if got != probe_expected[i] {
+                    return Some((0, i, got, true));
+                }
+            }
+            None
+        })
+        .join()
+        .unwrap_or(None)
+    })
+}
+
+#[allow(dead_code)]
+fn soak_old(calls: &[Call], expected: &[String], repeats: usize) -> Option<(usize, usize, String)> {
     std::thread::scope(|sc| {
         sc.spawn(|| {
             let ls = crate::pools::Langs::new();
@@ -270,6 +309,42 @@ fn soak_calls(corpus: &[Call], expected: &[String]) -> (Vec<Call>, Vec<String>) 
     (c, e)
 }
 
+/// H7: calls made from the destructor of a caller thread-local while the calling thread is being torn
+/// down (the library's own thread-locals, registered later, are already gone) give what they give normally.
+pub fn teardown_results(calls: &[Call]) -> Vec<String> {
+    use std::sync::mpsc;
+    struct Guard {
+        calls: Vec<Call>,
+        tx: mpsc::Sender<Vec<String>>,
+    }
+    impl Drop for Guard {
+        fn drop(&mut self) {
+            let ls = crate::pools::Langs::new();
+            let out: Vec<String> = self.calls.iter().map(|c| exec_call(&ls, c, false)).collect();
+            let _ = self.tx.send(out);
+        }
+    }
+    thread_local! {
+        static GUARD: std::cell::RefCell<Option<Guard>> = const { std::cell::RefCell::new(None) };
+    }
+    let (tx, rx) = mpsc::channel();
+    let owned: Vec<Call> = calls.to_vec();
+    let warm: Vec<Call> = calls.to_vec();
+    let h = std::thread::spawn(move || {
+        // 1. the caller's thread-local first ...
+        GUARD.with(|g| *g.borrow_mut() = Some(Guard { calls: owned, tx }));
+        // 2. ... then the library is used normally on this thread (whatever thread-locals it has are
+        //    registered after the caller's and destroyed before it)
+        let ls = crate::pools::Langs::new();
+        for c in warm.iter().take(50) {
+            let _ = exec_call(&ls, c, false);
+        }
+        // 3. thread exit: library thread-locals go first, then GUARD's destructor makes the calls
+    });
+    let _ = h.join();
+    rx.recv_timeout(std::time::Duration::from_secs(60)).unwrap_or_default()
+}
+
 fn single_call_case(call: &Call, expected: &str) -> Case {
     Case { calls: vec![call.clone()], expected: vec![expected.to_string()], threads: vec![vec![0]], policy: 0, sched_seed: 0, trace: None }
 }
@@ -301,14 +376,30 @@ pub fn replay_c14(doc: &Value) -> i32 {
             return 2;
         }
     };
+    if doc.get("teardown").and_then(|v| v.as_bool()).unwrap_or(false) {
+        let got = teardown_results(&case.calls);
+        return if got.len() == case.calls.len() && got[0] != case.expected[0] {
+            flush_and_code(
+                &[
+                    format!("REPLAY property=C14 oracle=H7-thread-teardown got {:?}, normally {:?}", got[0], case.expected[0]),
+                    "REPLAY-RESULT violation-reproduced oracle=H7-thread-teardown".to_string(),
+                ],
+                1,
+            )
+        } else {
+            flush_and_code(&["REPLAY-RESULT no-violation property=C14".to_string()], 0)
+        };
+    }
     if let Some(sk) = doc.get("soak") {
         let c: Vec<Call> = serde_json::from_value(sk["calls"].clone()).unwrap_or_default();
         let e: Vec<String> = serde_json::from_value(sk["expected"].clone()).unwrap_or_default();
         let n = sk["repeats"].as_u64().unwrap_or(0) as usize;
-        return match soak(&c, &e, n) {
+        let pc: Vec<Call> = serde_json::from_value(sk["probe"].clone()).unwrap_or_default();
+        let pe: Vec<String> = serde_json::from_value(sk["probe_expected"].clone()).unwrap_or_default();
+        return match soak_then_probe(&c, &e, n, &pc, &pe).map(|(r, i, g, _)| (r, i, g)) {
             Some((r, i, got)) => flush_and_code(
                 &[
-                    format!("REPLAY property=C14 oracle=H1-history-independence round {r} call {i}: got {got:?}, expected {:?}", e[i]),
+                    format!("REPLAY property=C14 oracle=H1-history-independence repetition {r} call {i}: got {got:?}"),
                     "REPLAY-RESULT violation-reproduced oracle=H1-history-independence".to_string(),
                 ],
                 1,
@@ -537,6 +628,40 @@ pub fn run_c14(cfg: &BatchCfg, corpus_size: usize, pristine_sample: usize) -> i3
 
     lines.push(format!("timing: silence scan + forward history {:.1}s", t_phase.elapsed().as_secs_f64()));
     let t_phase = std::time::Instant::now();
+    // (b3) teardown: a sample of crash-free calls made from a thread-local destructor at thread exit
+    {
+        let idx: Vec<usize> = (0..calls.len()).filter(|&i| calls[i].crash_at == 0 && calls[i].reenter == 0 && !calls[i].during_unwind).take(1200).collect();
+        let sample: Vec<Call> = idx.iter().map(|&i| calls[i].clone()).collect();
+        let got = teardown_results(&sample);
+        if got.len() == sample.len() {
+            if let Some(k) = (0..got.len()).find(|&k| got[k] != expected[idx[k]]) {
+                let detail = format!(
+                    "call {} made from the destructor of a caller thread-local during thread teardown gives {:?}, normally {:?}",
+                    serde_json::to_string(&sample[k]).unwrap_or_default(),
+                    got[k],
+                    expected[idx[k]]
+                );
+                let path = replay_dir().join(format!("C14-{}-teardown-{}.json", cfg.seed, idx[k]));
+                let doc = json!({"property":"C14","oracle":"H7-thread-teardown","detail":detail,
+                    "teardown": true, "case": single_call_case(&sample[k], &expected[idx[k]])});
+                let _ = std::fs::write(&path, serde_json::to_string_pretty(&doc).unwrap());
+                let _ = cap.stop();
+                return match confirm_in_child(&path, "H7-thread-teardown") {
+                    Ok(()) => {
+                        lines.push(format!("violation detail: oracle=H7-thread-teardown {detail}"));
+                        lines.push(format!("VIOLATION property=C14 replay={}", path.display()));
+                        fail(&lines, 1)
+                    }
+                    Err(e) => {
+                        lines.push(format!("HARNESS-ERROR property=C14 teardown mismatch did not reproduce in a fresh process: {e}"));
+                        fail(&lines, 2)
+                    }
+                };
+            }
+        } else {
+            lines.push(format!("note: teardown layer returned {} of {} results (skipped)", got.len(), sample.len()));
+        }
+    }
     // (b'') soak: up to 40 short calls, 66 000 rounds each, one thread, one interpreter set
     let (mut soak_c, mut soak_e) = soak_calls(&calls, &expected);
     // plus the ambiguity-annotation paths (English "o", French "neuf"), which keep per-call scratch state
@@ -553,8 +678,18 @@ pub fn run_c14(cfg: &BatchCfg, corpus_size: usize, pristine_sample: usize) -> i3
     }
     let soak_repeats = 66_000usize;
     let mut soak_hit: Option<(usize, usize, String)> = None;
+    let mut soak_probe: Option<(Call, String)> = None;
     if silence_hit.is_none() && direct_mismatch.is_none() {
-        soak_hit = soak(&soak_c, &soak_e, soak_repeats);
+        // probe afterwards with the systematic families (first part of the corpus), crash-free calls only
+        let probe_idx: Vec<usize> = (0..calls.len().min(1500)).filter(|&i| calls[i].crash_at == 0).collect();
+        let probe_c: Vec<Call> = probe_idx.iter().map(|&i| calls[i].clone()).collect();
+        let probe_e: Vec<String> = probe_idx.iter().map(|&i| expected[i].clone()).collect();
+        if let Some((r, i, got, in_probe)) = soak_then_probe(&soak_c, &soak_e, soak_repeats, &probe_c, &probe_e) {
+            if in_probe {
+                soak_probe = Some((probe_c[i].clone(), probe_e[i].clone()));
+            }
+            soak_hit = Some((r, i, got));
+        }
     }
     lines.push(format!("timing: soak {:.1}s", t_phase.elapsed().as_secs_f64()));
     let check = C14 { corpus: Corpus { calls: calls.clone(), expected: expected.clone() } };
@@ -630,6 +765,32 @@ pub fn run_c14(cfg: &BatchCfg, corpus_size: usize, pristine_sample: usize) -> i3
 
     if let Some((r, i, got)) = &soak_hit {
         let hi = soak_repeats;
+        if let Some((pc, pe)) = &soak_probe {
+            let detail = format!(
+                "after the soak ({} short calls, each repeated {} times in a row on one thread and one set of interpreters), call {} gives {:?}, alone in a pristine process it gives {:?}",
+                soak_c.len(),
+                hi,
+                serde_json::to_string(pc).unwrap_or_default(),
+                got,
+                pe
+            );
+            let path = replay_dir().join(format!("C14-{}-soak-probe.json", cfg.seed));
+            let doc = json!({"property":"C14","oracle":"H1-history-independence","detail":detail,
+                "soak": {"calls": soak_c, "expected": soak_e, "repeats": hi, "probe": [pc], "probe_expected": [pe]},
+                "case": single_call_case(pc, pe)});
+            let _ = std::fs::write(&path, serde_json::to_string_pretty(&doc).unwrap());
+            return match confirm_in_child(&path, "H1-history-independence") {
+                Ok(()) => {
+                    lines.push(format!("violation detail: oracle=H1-history-independence {detail}"));
+                    lines.push(format!("VIOLATION property=C14 replay={}", path.display()));
+                    fail(&lines, 1)
+                }
+                Err(e) => {
+                    lines.push(format!("HARNESS-ERROR property=C14 post-soak probe mismatch did not reproduce in a fresh process: {e}"));
+                    fail(&lines, 2)
+                }
+            };
+        }
         let detail = format!(
             "soak on one thread and one set of interpreters ({} short calls, each repeated {} times in a row): repetition {} of call #{} {} gives {:?}, alone in a pristine process it gives {:?}",
             soak_c.len(),
